@@ -102,7 +102,16 @@ func verifAssert(c bool, label string) {
 }
 func verifKnown(id string, c bool) {}
 func verifReach(label string)      {}
-func verifLocksFree() bool         { return true }
+// verifLocksFree: symbolically "no ghost lock is held"; natively the harness world registers a
+// probe that TryLocks the mutexes it knows about.
+var verifLockProbe func() bool
+
+func verifLocksFree() bool {
+	if verifLockProbe != nil {
+		return verifLockProbe()
+	}
+	return true
+}
 func verifFlag(name string) bool   { return verifFlags[name] }
 func verifCase(name string) int {
 	for f := range verifFlags {
